@@ -207,6 +207,13 @@ def run(c: Check):
         n = len(d["nodes"])
         subs = [a["n"] for a in d["actions"] if a["a"] == "submit"]
         root = c.rng.choice(subs) if subs and c.rng.random() < 0.4 else (n - 1 if c.rng.random() < 0.6 else c.rng.randrange(n))
+        if c.rng.random() < 0.06:
+            # a dict parameter whose value has a key named "type" (the saved form uses {"type": ...} for typed values)
+            d["nodes"].append(dict(cls="Bag", kw=[c.rng.choice([
+                ["ds", {"t": "dict", "v": [["type", {"t": "str", "v": "path"}], ["value", {"t": "str", "v": "some/thing"}]]}],
+                ["di", {"t": "dict", "v": [["type", {"t": "int", "v": 1}]]}],
+                ["ds", {"t": "dict", "v": [["type", {"t": "str", "v": "x"}]]}]])]))
+            root = len(d["nodes"]) - 1
         cases.append(dict(desc=d, root=root))
     chunks = [cases[i::16] for i in range(16)]
 
@@ -224,6 +231,20 @@ def run(c: Check):
                 c.count("error:" + r["error"].split(":")[0])
                 continue
             c.evaluations += 1
+            tk = '"type"' in json.dumps([nd_["kw"] for nd_ in x["desc"]["nodes"]]) and \
+                any(k_ == "type" for nd_ in x["desc"]["nodes"] for _, v_ in nd_["kw"] if v_["t"] == "dict" for k_, _ in v_["v"])
+            if tk:
+                # recorded finding: such a dictionary is read back as a typed value; one key for the whole family
+                c.count("dict-with-type-key")
+                nv = len(c.violations)
+                if "load_error" not in r:
+                    oracle(c, x, r)
+                if "load_error" in r or len(c.violations) > nv:
+                    del c.violations[nv:]
+                    c.violation("C12:dict-value-with-type-key", "a Dict parameter whose value has a key named \"type\" does not survive "
+                                "saving and loading (taken for a typed value: load raises, or another value is observed)",
+                                dict(desc=x["desc"], root=x["root"], error=r.get("load_error")))
+                continue
             if "load_error" in r:
                 kind = "enum-scalar" if any(e2 in r["load_error"] for e2 in ("Level", "Mode")) else r["load_error"].split(":")[0]
                 c.violation(f"C12:load-raises:{kind}", "loading back what was just saved raises",
